@@ -19,7 +19,7 @@ from concurrent.futures import ThreadPoolExecutor
 VERIF = os.path.dirname(os.path.dirname(os.path.abspath(__file__)))
 SPEC = os.path.join(VERIF, "spec")
 HARNESS = os.path.join(VERIF, "harness")
-REPO = "/repo"
+REPO = os.environ.get("LMV_REPO", "/repo")   # the repository under test (override only for background runs on a snapshot)
 TLC_JAR_CP = "/opt/veriftools/tla/tla2tools.jar:/opt/veriftools/tla/CommunityModules-deps.jar"
 
 
@@ -35,6 +35,15 @@ def log(*a):
 
 def build_harness(release=False, package="lmconform"):
     """(Re)build the harness against /repo's current working tree."""
+    # the path dependencies of the harness crates are rendered from Cargo.toml.in (default: /repo)
+    for crate in ("lmconform", "lmpyconform"):
+        tpl = os.path.join(HARNESS, crate, "Cargo.toml.in")
+        if os.path.exists(tpl):
+            want = open(tpl).read().replace("{REPO}", REPO)
+            dst = os.path.join(HARNESS, crate, "Cargo.toml")
+            if not os.path.exists(dst) or open(dst).read() != want:
+                with open(dst, "w") as f:
+                    f.write(want)
     lock_src = os.path.join(REPO, "Cargo.lock")
     lock_dst = os.path.join(HARNESS, "Cargo.lock")
     if not os.path.exists(lock_dst):
